@@ -1150,10 +1150,55 @@ func c03Classify(v ssa.Value) (kind string, base ssa.Value) {
 // c03IsDecoded: base is a struct a manifest document is decoded into — a local
 // whose address is handed to encoding/json, or a parameter of such a struct
 // type whose fields carry JSON tags (a helper receiving the decoded manifest).
-func c03IsDecoded(base ssa.Value) bool {
+func c03IsDecoded(base ssa.Value) bool { return c03IsDecodedD(base, 0) }
+
+func c03IsDecodedD(base ssa.Value, depth int) bool {
+	if depth > 3 {
+		return false
+	}
+	// the result of a module helper that decodes and returns the document (fetchJSON[T], decodeNode[T] -> T / *T)
+	resultOf := func(v ssa.Value) bool {
+		var call *ssa.Call
+		switch u := v.(type) {
+		case *ssa.Call:
+			call = u
+		case *ssa.Extract:
+			if cl, ok := u.Tuple.(*ssa.Call); ok && u.Index == 0 {
+				call = cl
+			}
+		}
+		if call == nil {
+			return false
+		}
+		g := StaticCallee(call)
+		if g == nil || !inModule(g) || len(g.Blocks) == 0 {
+			return false
+		}
+		okAny := false
+		for _, at := range RetAtoms(g, 0) {
+			if c01IsErrorReturn(at.Ret, ErrResultIndex(g.Signature)) {
+				continue
+			}
+			var src ssa.Value = at.Val
+			if ld, isLd := src.(*ssa.UnOp); isLd && ld.Op == token.MUL {
+				src = ld.X // the document returned by value
+			}
+			if !c03IsDecodedD(src, depth+1) {
+				return false
+			}
+			okAny = true
+		}
+		return okAny
+	}
+	if resultOf(base) {
+		return true
+	}
 	a, ok := base.(*ssa.Alloc)
 	if !ok {
 		return false
+	}
+	if ss := storesTo(a); len(ss) == 1 && resultOf(ss[0].Val) {
+		return true
 	}
 	for _, r := range *a.Referrers() {
 		if mi, isMI := r.(*ssa.MakeInterface); isMI {
@@ -1695,6 +1740,13 @@ type c03FilterLoop struct {
 // c03CheckFilterLoop analyses one `for _, e := range X` over descriptors in G
 // that filters e through a keep test into an accumulator.
 func c03CheckFilterLoop(G *ssa.Function, l *Loop, descMT *types.Var) (res c03FilterLoop, isFilter bool) {
+	return c03CheckFilterLoopY(G, l, descMT, nil)
+}
+
+// c03CheckFilterLoopY: with yield != nil the loop is the body of an iterator
+// (iter.Seq producer): "keeping" an element is yielding it, and the loop may
+// also end when yield returns false.
+func c03CheckFilterLoopY(G *ssa.Function, l *Loop, descMT *types.Var, yield ssa.Value) (res c03FilterLoop, isFilter bool) {
 	X, idx, body, _, _ := c01ElemLoop(l)
 	res.loop = l
 	header := l.Header.Instrs[0]
@@ -1737,13 +1789,35 @@ func c03CheckFilterLoop(G *ssa.Function, l *Loop, descMT *types.Var) (res c03Fil
 	var appends []*ssa.Call
 	AllInstrs(G, func(in ssa.Instruction) {
 		call, ok := in.(*ssa.Call)
-		if !ok || !l.Contains(call) || CalleeName(call) != "builtin:append" || len(call.Call.Args) != 2 {
+		if !ok || !l.Contains(call) {
+			return
+		}
+		if yield != nil {
+			if !call.Call.IsInvoke() && call.Call.Value == yield && len(call.Call.Args) == 1 && derivesElem(call.Call.Args[0]) {
+				appends = append(appends, call)
+			}
+			return
+		}
+		if CalleeName(call) != "builtin:append" || len(call.Call.Args) != 2 {
 			return
 		}
 		if derivesElem(call.Call.Args[1]) {
 			appends = append(appends, call)
 		}
 	})
+	if yield != nil {
+		// the yield result test is not the keep test
+		var ks []ssa.Instruction
+		var kt []Edge
+		for i, ki := range keepIfs {
+			cond, _, _ := ifEdges(ki.(*ssa.If))
+			if cc, isCall := cond.(*ssa.Call); isCall && !cc.Call.IsInvoke() && cc.Call.Value == yield {
+				continue
+			}
+			ks, kt = append(ks, ki), append(kt, keepTrue[i])
+		}
+		keepIfs, keepTrue = ks, kt
+	}
 	if len(keepIfs) == 0 && len(appends) == 0 {
 		return res, false
 	}
@@ -1758,6 +1832,9 @@ func c03CheckFilterLoop(G *ssa.Function, l *Loop, descMT *types.Var) (res c03Fil
 	}
 	// accumulator identity
 	for _, ap := range appends {
+		if yield != nil {
+			break
+		}
 		a0 := ap.Call.Args[0]
 		if phi, ok := a0.(*ssa.Phi); ok && phi.Block() == l.Header {
 			if res.accPhi != nil && res.accPhi != phi {
@@ -1792,6 +1869,15 @@ func c03CheckFilterLoop(G *ssa.Function, l *Loop, descMT *types.Var) (res c03Fil
 			if e == exhausted {
 				continue
 			}
+			if yield != nil {
+				var ys []ssa.Instruction
+				for _, ap := range appends {
+					ys = append(ys, ap)
+				}
+				if c01MustPassEdge(e, newCut().Instr(ys...)) {
+					continue // the consumer stopped (yield returned false)
+				}
+			}
 			if c01SuccessReturnFrom(G, e, nil, nil) != nil {
 				res.why = "the filtering loop can be left early (break / return) without an error: the remaining elements are never tested"
 				return
@@ -1806,7 +1892,7 @@ func c03CheckFilterLoop(G *ssa.Function, l *Loop, descMT *types.Var) (res c03Fil
 	// (b2) on the keep edge the element is appended (and, for a cell, stored back)
 	kept := newCut()
 	for _, ap := range appends {
-		if res.accPhi != nil {
+		if res.accPhi != nil || yield != nil {
 			kept.Instr(ap)
 			continue
 		}
@@ -1867,7 +1953,7 @@ func c03CellOnlyAppended(G *ssa.Function, cell ssa.Value) (bool, token.Pos) {
 			return
 		}
 		call, isCall := st.Val.(*ssa.Call)
-		good := isCall && CalleeName(call) == "builtin:append" && len(call.Call.Args) >= 1
+		good := isCall && (CalleeName(call) == "builtin:append" || CalleeName(call) == "slices.AppendSeq") && len(call.Call.Args) >= 1
 		if good {
 			ld, isLoad := call.Call.Args[0].(*ssa.UnOp)
 			good = isLoad && ld.Op == token.MUL && ld.X == cell
@@ -1939,6 +2025,60 @@ func c03R6(c *Ctx) {
 							fl = &r
 						}
 					}
+				}
+				if fl == nil {
+					// kept = slices.AppendSeq(kept, keptOnly(page, keep)): the filtering loop is the iterator's
+					AllInstrs(G, func(in ssa.Instruction) {
+						st, isStore := in.(*ssa.Store)
+						if !isStore {
+							return
+						}
+						ap, isCall := st.Val.(*ssa.Call)
+						if !isCall || CalleeName(ap) != "slices.AppendSeq" || len(ap.Call.Args) != 2 {
+							return
+						}
+						ld, isLd := ap.Call.Args[0].(*ssa.UnOp)
+						if !isLd || ld.Op != token.MUL || ld.X != st.Addr {
+							return
+						}
+						seq, isSeq := ap.Call.Args[1].(*ssa.Call)
+						if !isSeq {
+							return
+						}
+						g := StaticCallee(seq)
+						if g == nil || !inModule(g) || len(g.Blocks) == 0 {
+							return
+						}
+						var P *ssa.Function
+						for _, r := range Returns(g) {
+							if f, _ := c01FuncOfValue(r.Results[0]); f != nil {
+								P = f
+							}
+						}
+						if P == nil || len(P.Params) == 0 {
+							return
+						}
+						// the page is one of the iterator function's arguments
+						pageParam := -1
+						for i, a := range seq.Call.Args {
+							if isDescSlice(a.Type()) && c01ParamOf(a) != nil && i < len(g.Params) {
+								pageParam = i
+							}
+						}
+						if pageParam < 0 {
+							return
+						}
+						for _, l := range Loops(P) {
+							X, _, _, _, ok := c01ElemLoop(l)
+							if !ok || !isDescSlice(X.Type()) || !c01CarriedFrom(c.P, X, g.Params[pageParam]) {
+								continue
+							}
+							if r, isF := c03CheckFilterLoopY(P, l, descMT, P.Params[0]); isF {
+								r.accCell = st.Addr
+								fl = &r
+							}
+						}
+					})
 				}
 				if fl == nil {
 					c.Undecided(R, ck+"|every-referrer-tested-and-kept", G.Pos(), "no filtering loop over the page of referrers recognised in the callback")
